@@ -50,7 +50,7 @@ def _gen_one(rep, s, cfg, clauses):
     import os
     r = engine.run_tlc("Gen_Vector", cfg, timeout=1800)
     rep.add_mc(r, f"Gen_Vector suite {s}")
-    cases = [c for _, c in r.prints]
+    cases = [dict(c, _n=i) for i, (_, c) in enumerate(r.prints)]
     if not cases:
         raise engine.MachineryError("Gen_Vector emitted nothing for " + s)
     sc = engine.scratch()
